@@ -67,6 +67,51 @@ def ctx_origin(fn, e, depth=0):
     return None
 
 
+def interface_flattening_rule(cx, rep, rid):
+    """The runtime applies strict mode to each member of an intersection separately (recorded finding): `A & B` with two
+    closed object members rejects every value that has keys of both.  For `interface X extends A, B {..}` the compiler
+    avoids that by flattening parents and body into one object; only what cannot be flattened stays an intersection.
+    A path of the interface lowering that returns the intersection of the parents WITHOUT offering it to the
+    flattening makes the strict-mode validator of that interface reject everything.  Decided in the frontend functions
+    that take the interface declaration: every `Runtype::all_of(..)` built there flows (directly or through a `let`)
+    into an argument of the flattening function - the frontend function from `&Runtype` to the map of declared
+    members."""
+    from facts import walk as rwalk
+    F = cx.rs
+    flat = {g for g, f in F.fns.items() if "/src/frontend" in (f.file or "") and f.kind != "Closure"
+            and "Map<std::string::String, ast::runtype::Optionality<ast::runtype::Runtype>>" in (f.output or "")
+            and any(t_.strip() == "&ast::runtype::Runtype" for t_ in (f.inputs or []))}
+    if not flat:
+        rep.anchor_missing(rid, "flattening function (&Runtype -> map of declared members)")
+        return
+    n = 0
+    for g, t in sorted(F.hir.items()):
+        f = F.fns.get(g)
+        if f is None or "/src/frontend" not in (f.file or "") or not any("TsInterfaceDecl" in (x or "") for x in (f.inputs or [])):
+            continue
+        body = t["body"]
+        flat_args = []
+        for c in rwalk(body):
+            if c["k"] in ("Call", "MethodCall") and F._callee_gid(f.crate, (c.get("callee") if c["k"] == "Call" else (c.get("resolved") or c.get("callee"))) or "") in flat:
+                flat_args += list(c.get("args") or [])
+        lets = {}
+        for st in rwalk(body):
+            if st["k"] == "LetStmt" and st.get("init") is not None and st["pat"].get("k") == "P.Binding":
+                lets[st["pat"].get("lid")] = st["init"]
+        for a in rwalk(body):
+            if not (a["k"] == "Call" and (a.get("callee") or "").endswith("Runtype::all_of")):
+                continue
+            n += 1
+            # the locals initialised with this call
+            holders = {lid for lid, init in lets.items() if any(x is a for x in rwalk(init))}
+            offered = any(any(x is a for x in rwalk(arg)) or any(x["k"] == "Path" and x.get("lid") in holders for x in rwalk(arg)) for arg in flat_args)
+            rep.ob(rid, "%s/all_of" % f.name, offered,
+                   "%s builds an intersection (`Runtype::all_of`) for an interface declaration that is never offered to the flattening function (%s): the interface stays `A & B`, whose members are closed objects checked one by one in strict mode - `interface Person extends Named, Aged {}` then rejects {name, age} under disallowExtraProperties while the default mode accepts it" % (
+                       g, ", ".join(sorted(x.rsplit("::", 1)[-1] for x in flat))),
+                   "%s:%s" % (f.file, a["line"]), sample={"fn": f.name, "offered_to_flattening": offered})
+    rep.floor(rid, "intersections built by the interface lowering", n, 1)
+
+
 def run(cx, rep):
     fam = ts_common.Family(cx)
     mod = fam.mod
@@ -251,6 +296,8 @@ def run(cx, rep):
     optional_part_rule(cx, rep, "C11.8")
     rep.rule("C11.5", "open-object inclusion never decides which members of a printed union are kept")
     open_inclusion_callers_rule(cx, rep, "C11.5")
+    rep.rule("C11.9", "an interface with an `extends` clause is offered to the flattening into ONE closed object before it is left as an intersection")
+    interface_flattening_rule(cx, rep, "C11.9")
     rep.rule("C11.6", "strict mode finds undeclared keys by name, never by counting (= C03.13)")
     ts_common.key_count_rule(cx, rep, "C11.6", methods=("validate", "reportDecodeError"))
     rep.rule("C11.3", "conjunctive delegation counts the keys of all members")
